@@ -128,6 +128,17 @@ pub mod xml_nom {
         use crate::p2_char;
         //@@ is_char
     }
+    // nom/src/model.rs (real fields)
+    pub mod model {
+        pub struct PrefixedName<'a> {
+            pub prefix: &'a str,
+            pub local_part: &'a str,
+        }
+        pub enum QName<'a> {
+            Prefixed(PrefixedName<'a>),
+            Unprefixed(&'a str),
+        }
+    }
 }
 
 // ---- extracted from /repo/info/src/lib.rs ----
@@ -139,6 +150,16 @@ pub mod xml_nom {
 //@@ normalize_ws
 
 //@@ escape
+
+// &str == &str: equality of the character sequences
+#[verifier::external_body]
+pub fn shim_str_eq(a: &str, b: &str) -> (r: bool)
+    ensures r == (a@ == b@),
+{
+    a == b
+}
+
+//@@ equal_qname
 
 } // verus!
 fn main() {}
@@ -191,5 +212,15 @@ FNS = {
                   "(r@ == seq!['\\''] + value@ + seq!['\\''] && !value@.contains('\\'')))")],
         rules=[R_CONTAINS, R_FMTQ1, R_FMTQ2]),
 }
+
+FNS['equal_qname'] = Fn(
+    F, None, 'equal_qname', props=['C11'], safety_props=['C11'],
+    rules=[Rule('R39', r'a\.prefix == b\.prefix && a\.local_part == b\.local_part', 'shim_str_eq(a.prefix, b.prefix) && shim_str_eq(a.local_part, b.local_part)', '&str == &str -> shim comparing the character sequences'),
+           Rule('R39', r'=> a == b,', '=> shim_str_eq(a, b),', 'same')],
+    ensures=[('C11:same_spelling_of_prefix_and_local_part',
+              'r == (match (a, b) {'
+              ' (xml_nom::model::QName::Prefixed(x), xml_nom::model::QName::Prefixed(y)) => x.prefix@ == y.prefix@ && x.local_part@ == y.local_part@,'
+              ' (xml_nom::model::QName::Unprefixed(x), xml_nom::model::QName::Unprefixed(y)) => x@ == y@,'
+              ' _ => false })')])
 
 UNIT = dict(name='info_helpers', template=PRELUDE, fns=FNS, props=[])
